@@ -357,7 +357,14 @@ def encode_cases(ctx, rng, elits, edescr):
         out = rng.choice(["pandas", "numpy", "sparse"])
         K = make(kind, lv)
         ser = pd.Series(data, dtype=object)
-        rp = {"kind": "encode", "contrast": list(map(str, kind)), "levels": [str(x) for x in lv], "explicit_levels": explicit,
+        stored = "object"
+        if explicit and rng.random() < 0.35 and all(d is None or d in lv for d in data) and len(set(map(type, lv))) == 1:
+            # the data already is a pandas categorical, declaring the SAME categories in ANOTHER order: the explicit level list still decides
+            cats = list(lv)
+            rng.shuffle(cats)
+            ser = pd.Series(pd.Categorical(data, categories=cats))
+            stored = "category(shuffled)"
+        rp = {"kind": "encode", "contrast": list(map(str, kind)), "levels": [str(x) for x in lv], "explicit_levels": explicit, "stored_as": stored,
               "data": [None if d is None else str(d) for d in data], "reduced_rank": reduced, "output": out}
         ctx.oracle_runs += 1
         try:
